@@ -96,3 +96,12 @@ add('C40','model_checking','explicit-state search to the fixpoint over keybase o
 add('C38','model_checking','exhaustive deviation-bounded enumeration (all combinations of up to 2/3 non-typical leaf values) of 29 message/state/parameter types through every real encode/decode path, plus all field-order permutations for sign bytes',
  'Reflective generator: every leaf field has a typical value and 2-5 alternatives (empty, maximal, nil vs empty, multi-element, unicode, key kinds, multisig, proof kinds, every message in StdTx); each selected value goes through current and legacy binary codec, JSON and the real keeper storage paths and must decode to an equal value; sign bytes are identical for every field order and every delegator insertion order.',
  'Deviation bound 2 (quick) / 3 (thorough); alternatives per leaf are finite lists; invalid states (nil stake key, unnamed module account) excluded.')
+add('C35','model_checking','explicit-state BFS over real ABCI blocks (stake/unstake/jail/edit menu) with an exhaustive relay-mutation alphabet applied through the real HandleRelay in every reached state, against a reference authorization predicate',
+ 'In every chain state: well-formed relay, identical relay twice, 19 single-field alterations, valid-but-unauthorized field choices, sessions -3..+2 and client heights at/beyond the allowance; served+recorded once+signed iff authorized by the reference, else rejected with evidence unchanged.',
+ 'This process is servicer N1; session seats = eligible nodes so membership does not depend on the selection hash; stub HTTP chain.')
+add('C32','model_checking','explicit-state search over real ABCI blocks with a deviation bound on non-empty blocks (claim/proof/jail/unstake menu) and a shadow model of the claim store evaluated after every block',
+ 'Histories of 8-12 blocks with at most 2-4 non-empty blocks from an 18-item menu of valid, early, late, foreign, oversized and repeated claims and valid, wrong-index, wrong-leaf, outside-tree, too-early, other-evidence and repeated proofs: every accepted claim satisfies the acceptance conditions evaluated on historical state, every accepted proof is the valid one for a pending claim, supply changes only by the computed reward of accepted proofs, the claim store equals the shadow (incl. expiry).',
+ 'Synthetic evidence of 6/7/11 relays; one application, two nodes, session seats = nodes.')
+add('C31','model_checking','exhaustive enumeration of (blocks per session x submission window) configurations x every claim height x every single-block hash perturbation, executed on the real application (differential executions)',
+ 'For each configuration the set of heights that accept a claim and the last block whose hash influences the required leaf index are both measured on the real app (the index mirror is bound to the implementation by an accepted proof at the index and a rejected one next to it); violation iff a claim is accepted at or after the height at which that hash is public.',
+ 'Configurations: bps 2-6 x window 2-4; relay counts 5..16 for the index vectors.')
